@@ -3,6 +3,9 @@
 # (and of any other property given in meta.json "also"), undoes the patch, records the outcome in seeded/<id>/detect.json
 cd /verif
 ids="$@"; [ -z "$ids" ] && ids=$(ls seeded)
+# evidence written while a seeded change is applied must never be committed: keep the real files aside
+rm -rf /tmp/ev_keep && cp -r evidence /tmp/ev_keep
+trap 'rm -rf /verif/evidence && cp -r /tmp/ev_keep /verif/evidence && rm -rf /tmp/ev_keep /verif/replays' EXIT
 for id in $ids; do
   d=seeded/$id
   prop=$(python3 -c "import json;print(json.load(open('$d/meta.json'))['property'])")
